@@ -2,6 +2,14 @@
 # Regenerates MANIFEST.json from the table below (kept in one place so the manifest stays valid).
 import json, subprocess
 CLAIMED = {
+ "C09": dict(
+   text="Byte-exact FLV v1 layout contracts on the real muxer (13-byte header incl. PreviousTagSize0, 11-byte tag header, body, PreviousTagSize = 11+size) and demuxer (fields read at the stream head, exact advance by 13 / 11 / size+4, body never truncated, acceptance iff enough bytes), stated over ghost byte streams so they hold for every segmentation of the transport; plus the header+tag round-trip lemma through a real bytes.Buffer / bytes.Reader for every type, 32-bit timestamp and body below 2^24 bytes.",
+   note="Trusted: contracts of io.Copy / io.CopyN / bytes.Buffer / bytes.NewReader over ghost streams (they are what hides segmentation), govc, go/ssa, solvers. Sequences of tags follow by induction over the per-tag contracts (position-relative), not mechanised.",
+   design="7/C09"),
+ "C08": dict(
+   text="Ghost ioerr discipline on every FLV read/write entry point: if a transport primitive failed during the call the call returns a non-nil error whose root (through the errors package's wrappers) is exactly that failure, no error is fabricated on a healthy transport, and a returned tag is complete; errors.New/Errorf/WithStack/Wrap/Wrapf/WithMessage preserve nil and the root; withMessage.Error() is 'msg: inner'; Cause through all constructors (bounded: 4 layers over a foreign leaf).",
+   note="PARTIAL: the RTMP read/write paths are covered by the rtmp checks only where stated there. Cause over unboundedly deep chains of foreign causer types is not decided. Trusted: io/bufio stream contracts, govc, go/ssa, solvers.",
+   design="7/C08"),
  "C20": dict(
    text="Contracts on sample.sample/initialize, kxps.doSample/sampleAverage and the kbps/krps accessors with IEEE-754 semantics (SMT FloatingPoint theory): due/not-due behaviour, the rate formula increase*1000/window_ms, 0 on stall/backwards/2^63 jumps, every reported value finite, non-negative and bounded, frames (doSample touches only the three windows; the average baseline never moves once set), kbps = rate*8/1000, and refusal (panic) before Start as a panics_iff clause.",
    note="Trusted: govc, go/ssa, solvers; time.Time modelled as an abstract signed 64-bit nanosecond instant (Add/Sub assumed not to overflow); the sampling goroutine and wall clock of Start are outside the contracts; the counter source is an arbitrary function.",
